@@ -84,6 +84,17 @@ def run(case):
             R2, _ = fp.RJ(T)
             out["R2"] = hexl(R2)
             out["rec2"] = recovered(fp, T, t2)
+        if "late" in case:
+            # a panel added to the same object after it has been evaluated
+            fluid = StubFluid({k: fl(v) for k, v in case["fluid"].items()})
+            p = case["late"]["panel"]
+            fp.add_panel(np.array(conv(p["weights"])), fl(p["ri"]), fl(p["h"]), np.array(conv(p["metal"])), fluid)
+            fp._setup()
+            fp.t = t
+            TL = np.array(conv(case["late"]["T"]))
+            RL, _ = fp.RJ(TL)
+            out["R_late"] = hexl(RL)
+            out["rec_late"] = recovered(fp, TL, t)
     except Exception as e:
         out["error"] = "%s: %s" % (type(e).__name__, str(e)[:200])
     return out
